@@ -21,6 +21,12 @@ def ops_jobs(run: Run, prop: str, quick: bool, n_quick: int = 200, n_thorough: i
         j = run.job(d, want=["manifest"], plan={"fn": "ops", "args": {"seed": seed(), "calls_per_op": 7, "import": True, "undocumented_call": 6}}, cfg={"literal_enums": label.endswith("3.1.0")})
         info[j["id"]] = {"label": label, "cfg": {"literal_enums": label.endswith("3.1.0")}, "features": {"union_io", label}, "deterministic_valid": True}
         jobs.append(j)
+    for label, d in docs.cross_tag_docs():
+        for gat in (False, True):
+            cfg = {"generate_all_tags": True} if gat else {}
+            j = run.job(d, want=["manifest"], plan={"fn": "ops", "args": {"seed": seed(), "calls_per_op": 3, "import": True}}, cfg=cfg)
+            info[j["id"]] = {"label": label + (":all_tags" if gat else ""), "cfg": cfg, "features": {"cross_tag", label}, "deterministic_valid": True}
+            jobs.append(j)
     for label, d, ovr in docs.override_docs():
         cfg = {"content_type_overrides": ovr}
         j = run.job(d, want=["manifest"], plan={"fn": "ops", "args": {"seed": seed(), "calls_per_op": 6, "import": True, "overrides": ovr}}, cfg=cfg)
